@@ -314,6 +314,7 @@ class Condition:
     def release(self) -> None:
         """Release the underlying lock."""
         self._lock.release()
+        self._owner_task = None
 
     def locked(self) -> bool:
         """Return True if the lock is set."""
